@@ -111,7 +111,8 @@ class StringLiteral(Operand):
     py_type = str
 
     def _decode(self, data):
-        idx = struct.unpack('>h', data)[0]
+        # encoded as an unsigned value
+        idx = struct.unpack('>H', data)[0]
         value = self.literals[idx]
         return value
 
